@@ -7,6 +7,7 @@ open Gwb
 #print axioms C09_unit_direction
 #print axioms C09_section_by_distance
 #print axioms C09_projection_bounded
+#print axioms C09_lift_radius_spherical
 #check @C09_2d_is_projected_3d
 #check @C09_velocity_projection
 #check @C09_no_cross_section_refused
@@ -14,3 +15,4 @@ open Gwb
 #check @C09_unit_direction
 #check @C09_section_by_distance
 #check @C09_projection_bounded
+#check @C09_lift_radius_spherical
